@@ -16,7 +16,9 @@ REPLAY_BIN = os.path.join(VERIF, ".build", "replay", "debug", "h3-verif-replay")
 
 SPECS = {
     # property -> list of (spec name, module, tiers)
+    "C03": [("c03_request_stream_sequences", "c03")],
     "C04": [("c04_control_stream_rules", "c04")],
+    "C07": [("c07_stream_scoped_faults", "c03")],
     "C05": [("c05_interleavings", "c05")],
     "C08": [("c08_goaway_rules", "c08")],
 }
